@@ -117,9 +117,9 @@ class ShellService(object):
 
     def start(self, st):
         for c in self.chunks:
-            st.data.append(('WRTE', c))
+            st.data.append(('WRTE', c, 0))
         if self.close:
-            st.data.append(('CLSE', b''))
+            st.data.append(('CLSE', b'', st.nwr))
 
     def on_write(self, st, payload):
         pass
@@ -172,7 +172,7 @@ class SyncService(object):
             parts = [b[i:i + m] for i in range(0, len(b), m)]
         assert b''.join(parts) == b and all(parts)
         for p in parts:
-            st.data.append(('WRTE', p))
+            st.data.append(('WRTE', p, st.nwr))
 
     def handle(self, st, r):
         sid = r['id']
@@ -261,7 +261,7 @@ class SyncService(object):
             self.fs.pushed.append(self.cur)
             self.cur = None
         elif sid == 'QUIT':
-            st.data.append(('CLSE', b''))
+            st.data.append(('CLSE', b'', st.nwr))
         else:
             self.dev.env_note('unknown sync id %r' % (r['word'],))
 
@@ -281,6 +281,8 @@ class Stream(object):
         self.acks = []          # control packets owed to the host: ('OKAY',) ; sent in order
         self.data = []          # ('WRTE', payload) / ('CLSE', b'') produced by the service, in order
         self.await_ack = False  # a device WRITE is outstanding
+        self.nwr = 0            # host WRITEs consumed
+        self.acks_sent = 0      # OKAYs sent for host WRITEs
         self.opened_ack_sent = False
         self.dev_closed = False
         self.host_closed = False
@@ -463,7 +465,8 @@ class SimDevice(object):
             st = self.streams.get(h['a0'])
             if st is not None and not st.host_closed:
                 st.host_writes.append(h['payload'])
-                st.acks.append(('OKAY',))
+                st.nwr += 1
+                st.acks.append(('OKAY', 'w'))
                 st.service.on_write(st, h['payload'])
         elif cmd == 'CLSE':
             st = self.streams.get(h['a0'])
@@ -490,7 +493,9 @@ class SimDevice(object):
         for st in self.all_streams:
             if st.acks:
                 out.append((st.lid, 'ack', id(st)))
-                if not (self.reorder and st.opened_ack_sent):
+                # adbd acknowledges host WRITE k before the service can answer it; a reply to WRITE k may
+                # however overtake the OKAY of a later WRITE (reorder mode explores that)
+                if not (self.reorder and st.opened_ack_sent and st.data and st.data[0][2] <= st.acks_sent):
                     continue
             if st.data and st.opened_ack_sent and not st.dev_closed:
                 kind = st.data[0][0]
@@ -507,6 +512,8 @@ class SimDevice(object):
             a = st.acks.pop(0)
             if a[0] == 'OKAY':
                 st.opened_ack_sent = True
+                if len(a) > 1:
+                    st.acks_sent += 1
                 self.put(wire.frame('OKAY', st.rid, st.lid), lid=lid)
             elif a[0] == 'CLSE':
                 st.dev_closed = True
@@ -514,7 +521,7 @@ class SimDevice(object):
             elif a[0] == 'CLSE0':
                 self.put(wire.frame('CLSE', 0, st.lid), lid=lid)
         else:
-            k, payload = st.data.pop(0)
+            k, payload, _ = st.data.pop(0)
             if k == 'WRTE':
                 st.await_ack = True
                 st.sent.append(payload)
